@@ -114,19 +114,19 @@ def fields(manifest):
 def ctor_inits(manifest):
     """the constructor's mem-initialiser list as C assignments; members not mentioned are NOT assigned."""
     src = Source("hexsim.hpp", manifest)
-    t = src.span(r"Processor\(std::istream &in, std::ostream &out, size_t maxCycles=0\) :\s*(.*?)\s*\{\}", "Processor::Processor initialiser list", 1)
+    t = src.span(r"Processor\(std::istream &in, std::ostream &out, size_t maxCycles=0\) :\s*(.*?\))\s*\{\}", "Processor::Processor initialiser list", 1)
     t = strip_comments(t)
     items = []
     i = 0
     while i < len(t):
-        m = re.match(r"\s*,?\s*(\w+)\(", t[i:])
+        m = re.match(r"\s*,?\s*(\w+)([({])", t[i:])
         if not m:
             if t[i:].strip() in ("", ","):
                 break
             raise ExtractionError("ctor init list: cannot parse at %r" % t[i:i + 40])
         name = m.group(1)
         lp = i + m.end() - 1
-        rp = match_close(t, lp, "(", ")")
+        rp = match_close(t, lp, m.group(2), ")" if m.group(2) == "(" else "}")
         items.append((name, t[lp + 1:rp].strip()))
         i = rp + 1
     asg = []
@@ -136,6 +136,10 @@ def ctor_inits(manifest):
             continue
         if n == "maxCycles":
             asg.append("maxCycles = maxCycles_arg;")
+        elif n == "memory":
+            if v not in ("", "{}"):
+                raise ExtractionError("ctor init memory(%s): only value-initialisation understood" % v)
+            asg.append("MEM_ZERO(); /* std::array value-initialisation: every word zero */")
         else:
             if not re.fullmatch(r"[\w ]+", v):
                 raise ExtractionError("ctor init %s(%s): unexpected initialiser" % (n, v))
@@ -322,13 +326,75 @@ def trace_fns(manifest):
     return "\n".join(out) + "\n"
 
 
-def lookupSymbol_fn(manifest, contract=""):
+LOOKUP_CONTRACT = """
+/* table is non-empty when called (trace() guards with debugInfo.size()) */
+__CPROVER_requires(debugInfo_size >= 1 && debugInfo_size <= 1000000)
+__CPROVER_requires(__CPROVER_is_fresh(debugInfo, debugInfo_size * sizeof(DebugEntry)))
+/* below the first entry: no symbol */
+__CPROVER_ensures((__CPROVER_return_value == NULL) == (lastPC < debugInfo[0].second))
+/* otherwise: an entry idx with offset(idx) <= pc, and pc < offset(idx+1) unless idx is the last */
+__CPROVER_ensures(__CPROVER_return_value == NULL || (g_lookup_idx < debugInfo_size && __CPROVER_return_value == &debugInfo[g_lookup_idx] &&
+                  debugInfo[g_lookup_idx].second <= lastPC &&
+                  (g_lookup_idx == debugInfo_size - 1 || lastPC < debugInfo[g_lookup_idx + 1].second)))
+__CPROVER_assigns(g_lookup_idx)
+"""
+
+
+def lookupSymbol_fn(manifest, with_contract=True):
     src = Source("hexsim.hpp", manifest)
     b, _, _ = src.block_after(r"const char \*lookupSymbol\(\) \{", "Processor::lookupSymbol")
-    b = rewrite(b, [
+    loop = ("for (size_t i=0; i<debugInfo_size; i++)\n"
+            "    __CPROVER_assigns(i)\n"
+            "    __CPROVER_loop_invariant(i <= debugInfo_size && (i < debugInfo_size ==> lastPC >= debugInfo[i].second))\n"
+            "    __CPROVER_decreases(debugInfo_size - i)\n  {")
+    rules = [
         (r"debugInfo\.size\(\)", "debugInfo_size", 2),
-        (r"return debugInfo\[i\]\.first\.c_str\(\);", "return &debugInfo[i];", 2),
-        (r"return nullptr;", "return NULL;", 2),
-    ], "lookupSymbol", manifest)
+        (r"return debugInfo\[i\]\.first\.c_str\(\);", "{ g_lookup_idx = i; return &debugInfo[i]; }", 2, 2),
+        (r"return nullptr;", "return NULL;", 2, 2),
+    ]
+    if with_contract:
+        rules.append((r"for \(size_t i=0; i<debugInfo_size; i\+\+\) \{", loop, 1, 1))
+    b = rewrite(b, rules, "lookupSymbol", manifest)
     leftover_check(b, "lookupSymbol")
-    return b
+    return "size_t g_lookup_idx;\nstatic const DebugEntry *lookupSymbol(void)" + (LOOKUP_CONTRACT if with_contract else "\n") + b + "\n"
+
+
+def load_fn(manifest):
+    """Processor::load -> load_image() (header arithmetic + copy extent) and load_debug() (symbol table reader).
+    File operations become FILE_* stubs over a ghost byte buffer; the dumpContents printing is dropped."""
+    src = Source("hexsim.hpp", manifest)
+    b, _, _ = src.block_after(r"void load\(const char \*filename, bool dumpContents=false\) \{", "Processor::load")
+    m = re.search(r"// Read debug data \(if present\)\.\s*if \(remainingFileSize > programSize\) \{", b)
+    if not m:
+        raise ExtractionError("load(): debug-data anchor not found")
+    head = b[1:m.start()]
+    lb = m.end() - 1
+    rb = match_close(b, lb)
+    dbg = b[lb:rb + 1]
+    tail = b[rb + 1:]
+    if not re.search(r"if \(dumpContents\) \{", tail):
+        raise ExtractionError("load(): expected only the dumpContents block after the debug-data block")
+    head = rewrite(head, [
+        (r"std::streampos fileSize;", "long fileSize;", 1, 1),
+        (r"std::ifstream file\(filename, std::ios::binary\);", "FILE_OPEN();", 1, 1),
+        (r"file\.seekg\(0, std::ios::(?:end|beg)\);", ";", 2, 2),
+        (r"fileSize = file\.tellg\(\);", "fileSize = FILE_SIZE();", 1, 1),
+        (r"static_cast<unsigned>\(fileSize\)", "(unsigned)(fileSize)", 1, 1),
+        (r"file\.read\(reinterpret_cast<char\*>\(&programSize\), 4\);", "FILE_READ_U32(&programSize);", 1, 1),
+        (r"file\.read\(reinterpret_cast<char\*>\(memory\.data\(\)\), programSize\);", "FILE_READ_MEM(programSize);", 1, 1),
+    ], "load (image part)", manifest)
+    leftover_check(head, "load_image")
+    out = ["static unsigned ld_remainingFileSize, ld_programSize;",
+           "static void load_image(void) {" + head + "  ld_remainingFileSize = remainingFileSize; ld_programSize = programSize;\n}"]
+    dbg = rewrite(dbg, [
+        (r"file\.read\(reinterpret_cast<char\*>\(&(\w+)\), sizeof\(uint32_t\)\);", r"FILE_READ_U32(&\1);", 4, 4),
+        (r"std::vector<std::string> strings;", "/* std::vector<std::string> strings: names are opaque ids */", 1, 1),
+        (r"for \(size_t i=0; i<numStrings; i\+\+\) \{\s*char c = file\.get\(\);\s*std::string s;\s*while \(c != '\\0'\) \{\s*s \+= c;\s*c = file\.get\(\);\s*\}\s*strings\.push_back\(s\);\s*\}",
+         "FILE_READ_STRINGS(numStrings);", 1, 1),
+        (r"debugInfo\.push_back\(std::make_pair\(strings\[strIndex\], byteOffset\)\);", "DEBUGINFO_PUSH(STRINGS_AT(strIndex), byteOffset);", 1, 1),
+        (r"debugInfoMap\[strings\[strIndex\]\] = byteOffset;", "DEBUGMAP_SET(STRINGS_AT(strIndex), byteOffset);", 1, 1),
+    ], "load (debug part)", manifest)
+    leftover_check(dbg, "load_debug")
+    out.append("static void load_debug(void) " + dbg)
+    manifest.append({"unit": "Processor::load", "dropped": ["dumpContents printing block", "string contents (names -> ids)", "stream error states"]})
+    return "\n".join(out) + "\n"
